@@ -24,6 +24,12 @@ var ErrRead = errors.New("sport: injected read error")
 var ErrWrite = errors.New("sport: injected write error")
 var ErrFlush = errors.New("sport: injected flush error")
 
+// BudgetExceeded is the panic value used when the driver keeps reading after the port has
+// reported "no more data" more than ReadBudget times: the call would hang on a real port.
+type BudgetExceeded struct{}
+
+const ReadBudget = 5000
+
 // Port is a scripted device.  Write number k (0-based) fails if WriteFaults[k] is true,
 // otherwise it records the frame and appends Reactions[k] to the read queue.
 type Port struct {
@@ -33,13 +39,13 @@ type Port struct {
 	FlushFaults []bool
 	NoProgress  bool // exhausted queue answers (0,nil) forever instead of EOF
 
-	Written   [][]byte // frames successfully written
-	NWrites   int      // Write calls (including failed ones)
-	NReads    int      // Read calls
-	NFlushes  int      // Flush calls
-	NClose    int
-	ReadsAtEnd int     // Read calls answered because the queue was exhausted
-	Delivered []byte   // every byte handed out by Read
+	Written    [][]byte // frames successfully written
+	NWrites    int      // Write calls (including failed ones)
+	NReads     int      // Read calls
+	NFlushes   int      // Flush calls
+	NClose     int
+	ReadsAtEnd int    // Read calls answered because the queue was exhausted
+	Delivered  []byte // every byte handed out by Read
 
 	// optional callback invoked at the beginning of every Write (used for cancellation mid-read)
 	OnWrite func(k int, b []byte)
@@ -52,6 +58,9 @@ func (p *Port) Read(b []byte) (int, error) {
 	}
 	if len(p.Queue) == 0 {
 		p.ReadsAtEnd++
+		if p.ReadsAtEnd > ReadBudget {
+			panic(BudgetExceeded{})
+		}
 		if p.NoProgress {
 			return 0, nil
 		}
